@@ -16,12 +16,22 @@ from harness.framework import canon, jdump
 from harness import loop_driver as D
 
 
+def _inputs(s):
+    """The controllable part of a step: iterate's / run_sync's last argument names the choice the
+    specification made, not an input."""
+    if s["act"] == "iterate":
+        return [s["act"], []]
+    if s["act"] == "run_sync":
+        return [s["act"], s["args"][:3]]
+    return [s["act"], s["args"]]
+
+
 def group_by_program(paths):
     """Paths with the same configuration and the same sequence of (act, args) are the allowed
     alternatives of ONE program; returns [(extra + {'alts': [[exp...]...]}, path)]."""
     groups = {}
     for extra, path in paths:
-        key = jdump([extra, [[s["act"], [] if s["act"] == "iterate" else s["args"]] for s in path]])
+        key = jdump([extra, [_inputs(s) for s in path]])
         groups.setdefault(key, []).append(path)
     out = []
     for key in sorted(groups):
@@ -81,6 +91,25 @@ def sched_replayer(extra, path):
 _NVAR = 2
 
 
+def runsync_replayer(extra, path):
+    for v in range(2):
+        real = D.RunSyncReal(extra.get("cfg"), variant=v)
+        try:
+            obs = [canon(real.step(s["act"], s["args"])) for s in path]
+        finally:
+            real.close()
+        bad = match_alts(extra["alts"], obs)
+        if bad is not None:
+            i, exps = bad
+            s = path[i]
+            return {"step": i, "act": s["act"], "args": s["args"][:3], "exp": exps, "obs": obs[i], "variant": v,
+                    "sig": {"spec": "RunSync", "kind_": s["args"][0], "timeout": s["args"][2] != 999,
+                            "call_no": i + 1, "obs_out": obs[i]["out"], "exp_out": exps[0]["out"],
+                            "elapsed_differs": obs[i]["elapsed"] != exps[0]["elapsed"], "seen_differs": obs[i]["seen"] != exps[0]["seen"],
+                            "unexpected_log": bool(obs[i].get("unexpected_log"))}}
+    return None
+
+
 def run(ctx):
     global _NVAR
     _NVAR = ctx.pick(2, 4)
@@ -91,6 +120,12 @@ def run(ctx):
     ctx.note("sched_programs", len(progs))
     ctx.replay(progs, sched_replayer, label="s2c-sched",
                nontrivial=lambda e, p: any(s["act"] == "iterate" for s in p))
+    # run_sync: every sequence of calls (function kind x duration x timeout) up to the bound
+    ctx.mc("loop", "RunSync", "MC_RunSync.cfg", required_actions=["Call"])
+    rs = group_by_program(ctx.gen_paths("loop", "Gen_RunSync", "Gen_RunSync.cfg",
+                                        overrides=ctx.pick({}, {"Durations": "{0, 1, 2, 3}", "Timeouts": "{0, 1, 2, 999}"})))
+    ctx.note("runsync_programs", len(rs))
+    ctx.replay(rs, runsync_replayer, label="s2c-runsync", nontrivial=lambda e, p: len(p) >= 1)
     ctx.cov["exhaustive"] = True
     ctx.cov["rule"] = ("programs: every sequence of add_callback/spawn_callback, add_timeout (absolute, timedelta) / call_later / "
                        "call_at, add_future, resolve, remove_timeout, clock advance and single loop iteration up to the Gen "
